@@ -197,9 +197,9 @@ def jobs(tier, seed):
         out.append(dict(case="lm", params=dict(shape=sh, contexts=contexts, chain=[["a", "b"]], lms=["rescaled"], heap="nondet", fixed=fx), budget=dict(max_paths=6000)))
     out.append(dict(case="rescaled_underflow", params=dict(n=240 if quick else 400)))
     # a longer context on a tiny skeleton: the product of per-column rescale factors must cancel exactly
-    n_long = 10 if quick else 24
-    for lmname in ["rescaled", "earley"]:
-        out.append(dict(case="lm", params=dict(shape="G-S1", contexts=[["a"] * n_long], chain=[["a"] * (n_long // 2)], lms=[lmname], fixed={"0": 1, "1": 1, "2": 1}), timeout=1500))
+    for lmname, n_long in [("rescaled", 4 if quick else 5), ("earley", 10 if quick else 24), ("cky", 6 if quick else 10)]:
+        # one symbolic weight (S -> a S); the other two rules carry weight one: univariate rational functions
+        out.append(dict(case="lm", params=dict(shape="G-S1", contexts=[["a"] * n_long], chain=[["a"] * (n_long // 2)], lms=[lmname], fixed={"0": 1}, const={"1": 1, "2": 1}), timeout=1500))
     out.append(dict(case="lm", params=dict(shape="G-S1", contexts=[[], ["a"]], chain=[["a"]], lms=["earley"], canary=True)))
     seeds = [1 + seed % 1000] if quick else [0, 1 + seed % 1000]
     return [dict(j, hashseed=s) for j in out for s in (seeds if (not j["params"].get("canary") and j["params"].get("heap") != "nondet") else seeds[:1])]
